@@ -11,4 +11,4 @@ require (
 
 replace verif/simrt => /verif/simrt
 
-replace github.com/syndtr/goleveldb => /tmp/sc/repo
+replace github.com/syndtr/goleveldb => /repo
